@@ -59,3 +59,35 @@ Theorem C11_nonvacuous :
   = ([1]%nat, [0]%nat, @nil nat, @nil nat, true, true, false)
   /\ In "S"%string elems /\ In "C"%string elems.
 Proof. exact criterion_examples. Qed.
+
+(* ---- "a bridged cysteine is not titrated": the titration flags of a group whose atom carries the bridge flag when the group is
+   created, under ANY sequence of the operations the source performs on these flags (setup with any model-pKa state, the
+   --titrate_only restriction with any list, cloning, further bridge marks); model/Titrate.v, inventory gen/Inventory_gen.v *)
+From V Require Import PyString Titrate TitrateProofs Inventory_gen.
+From Coq Require Import QArith.
+Theorem C11_bridged_group_never_titratable : forall (E : Type) k is_cys (env : E) (ops : list flag_op),
+  g_titratable (snd (flag_run (flag_init k is_cys true env) ops)) = false.
+Proof. intros E. exact bridged_from_init. Qed.
+Theorem C11_bridge_flag_never_cleared : forall (E : Type) (st : flag_state E) ops, fst st = true -> fst (flag_run st ops) = true.
+Proof. intros E st ops Hb. destruct (g_titratable (snd st)) eqn:Hg.
+  - revert st Hb Hg. unfold flag_run. induction ops as [|o ops IH]; cbn [fold_left]; intros st Hb Hg; [exact Hb|].
+    destruct (g_titratable (snd (flag_step st o))) eqn:H2; [apply IH; [apply flag_step_bridge_monotone; exact Hb | exact H2]|].
+    apply (bridged_never_titratable ops (flag_step st o)); [apply flag_step_bridge_monotone; exact Hb | exact H2].
+  - apply (bridged_never_titratable ops st Hb Hg).
+Qed.
+Theorem C11_free_group_flags : forall (E : Type) k is_cys (env : E) mps o,
+  g_titratable (snd (flag_run (flag_init k is_cys false env) [OpSetup mps; OpRestrict o])) =
+  mps && match o with None => true | Some l => key_mem k l end.
+Proof. intros E. exact free_group_flags. Qed.
+(* every assignment to titratable / cysteine_bridge / exclude_cys_from_results in the CURRENT source is one of the model's operations,
+   each operation's write is present, and the reported pKa of a bridged cysteine is the sentinel 99.99 *)
+Theorem C11_flag_writes_are_the_modelled_operations :
+  forallb row_ok flag_writes = true
+  /\ has_row flag_writes "Group.__init__" "titratable" "False" = true
+  /\ has_row flag_writes "Group.setup" "titratable" "True" = true
+  /\ has_row flag_writes "BondMaker._find_bonds_for_atoms" "cysteine_bridge" "True" = true
+  /\ has_row flag_writes "ConformationContainer.init_group" "titratable" "False" = true
+  /\ match bridged_pka_sentinel with Some q => Qeq_bool q (9999 # 100) = true | None => False end.
+Proof. vm_compute. repeat split. Qed.
+Print Assumptions C11_bridged_group_never_titratable.
+Print Assumptions C11_flag_writes_are_the_modelled_operations.
